@@ -294,6 +294,7 @@ var segPool = []string{
 	"Salary", "Bonus", "Interest", "Dividends", "Food", "Rent", "Tax", "Travel", "Fees",
 	"Ärzte", "現金", "Öl", "A1", "B", "C2", "Zürich", "X9", "Opening", "Retained", "Misc",
 	"Kids", "Auto", "P2P", "ÉtéÜber", "Я", "a", "z",
+	"Donaudampfschifffahrtsgesellschaftskapitänsmützenabzeichen2020", "Überstundenzuschlagsrückstellungskontokorrentverrechnung",
 }
 
 var TypeNames = []string{"Assets", "Liabilities", "Equity", "Income", "Expenses"}
